@@ -42,8 +42,16 @@ let tok_ic_of (s : string) : tok_ic =
      | _ -> failwith "ti")
   else failwith "ti"
 
+(* "s<N>" is a selective probe: the implementation asks only at let / return / function
+   tokens; the model's probe answers are a function of the state alone, so its log is the
+   full log with the other entries of that probe removed (selective_ids, fmt_events) *)
 let stmt_ic_of s = if s = "p" then SI_Pass else SI_Probe (z_of_int (int_of_string (drop 1 s)))
 let expr_ic_of s = if s = "p" then EI_Pass else if s = "r" then EI_Reentrant else EI_Probe (z_of_int (int_of_string (drop 1 s)))
+let selective_ids (c : pcase) : int list =
+  List.filter_map (fun s -> if s <> "" && s.[0] = 's' then Some (int_of_string (drop 1 s)) else None) (c.si @ c.ei)
+let selective_token (id : int) (t : token) : bool =
+  let ty = int_of_z t.t_type and m = id mod 7 + 1 in
+  (m land 1 <> 0 && ty = int_of_z t_LET) || (m land 2 <> 0 && ty = int_of_z t_RETURN) || (m land 4 <> 0 && ty = int_of_z t_FUNCTION)
 
 (* builder operations in the order the harness issues them *)
 let builder_ops (c : pcase) : bop list =
@@ -54,8 +62,21 @@ let builder_ops (c : pcase) : bop list =
   @ List.map (fun (t, p) -> BRegInfix (z_of_int t, z_of_int p)) c.inf
   @ List.map (fun t -> BRegPostfix (z_of_int t)) c.post
 
+(* token interceptors in installation order; "n<hexlit>=<hexname>" takes its type from
+   the lexer builder's RegisterTokenType *)
+let tok_ics_of (tis : string list) : tok_ic list =
+  let lb = ref lbuilder_new in
+  List.map (fun s ->
+    if s <> "" && s.[0] = 'n' then
+      (match split_on '=' (drop 1 s) with
+       | [h; nm] ->
+           let (id, lb') = register_token_type !lb (str_of_string (unhx nm)) in
+           lb := lb'; TI_Retag (str_of_string (unhx h), id)
+       | _ -> failwith "ti")
+    else tok_ic_of s) tis
+
 let lex_tokens (c : pcase) : token list =
-  let tics = List.map tok_ic_of c.ti in
+  let tics = tok_ics_of c.ti in
   match tokenize (str_of_string c.src) with
   | Some ts -> List.map (apply_tok_ics tics) ts
   | None -> failwith "tokenize: out of fuel"
@@ -109,11 +130,12 @@ let fmt_err (e : perror) =
   Printf.sprintf "E%d:%d:%d:%d:%d:%d" (int_of_z e.e_kind) (int_of_z e.e_arg)
     (int_of_z e.e_start.pline) (int_of_z e.e_start.pcol) (int_of_z e.e_end.pline) (int_of_z e.e_end.pcol)
 
-let fmt_events (evs : pevent list) =
+let fmt_events ?(selective = []) (evs : pevent list) =
+  let evs = List.filter (fun e -> not (List.mem (int_of_z e.ev_id) selective && int_of_z e.ev_kind <> 2) || selective_token (int_of_z e.ev_id) e.ev_tok) evs in
   "[" ^ String.concat " " (List.map (fun e ->
     Printf.sprintf "%d/%d/%s/%d/%s" (int_of_z e.ev_id) (int_of_z e.ev_kind) (tk e.ev_tok) (int_of_z e.ev_ctx) (b01 e.ev_infn)) evs) ^ "]"
 
-type parsed = { regs : bool list; cfg : pcfg; result : parse_result }
+type parsed = { regs : bool list; cfg : pcfg; result : parse_result; sel : int list }
 
 let run_parse (c : pcase) : parsed =
   let (regs_all, b) = pb_run pbuilder_new (builder_ops c) in
@@ -125,7 +147,7 @@ let run_parse (c : pcase) : parsed =
       (* only the registration calls report errors in the harness output *)
       let nskip = 2 + List.length c.si + List.length c.ei in
       let rec dropn n l = if n = 0 then l else match l with [] -> [] | _ :: t -> dropn (n - 1) t in
-      { regs = dropn nskip regs_all; cfg; result = r }
+      { regs = dropn nskip regs_all; cfg; result = r; sel = selective_ids c }
 
 let parse_observable (p : parsed) : string =
   let r = p.result in
@@ -133,4 +155,4 @@ let parse_observable (p : parsed) : string =
     (sx_stmts r.pr_program.p_stmts) (tk r.pr_program.p_eof)
     (String.concat " " (List.map fmt_err r.pr_errors)) (b01 r.pr_err_returned)
     (int_of_z (current_context r.pr_final)) (b01 (is_in_function r.pr_final))
-    (fmt_events r.pr_final.ps_log)
+    (fmt_events ~selective:p.sel r.pr_final.ps_log)
